@@ -218,6 +218,7 @@ package reconciler
 // reconcileLoop / prune (C15, C16): Prune runs only once the table's initialisation channel has
 // fired, on the snapshot of this round, and is given the table's complete contents (Table.All of
 // that snapshot); the progress tracker is updated with exactly what the round returned.
+//@ spec initSeenAtSnapshot(tag mathint) bool
 //@ func (*reconciler).prune
 //@   property C15
 //@   flag nosafety
@@ -231,5 +232,7 @@ package reconciler
 //@   maypanic
 //@   flag assumepre=reconciler-fields-initialised-and-no-root-mutex-held
 //@   atcall (*reconciler).prune@1 requires @prune-only-when-initialized tableInitialized && $2 == txn
+//@   aftercall (*DB).ReadTxn@1 assume initSeenAtSnapshot(1) == tableInitialized
+//@   atcall (*reconciler).prune@1 requires @initialized-before-the-snapshot-was-taken initSeenAtSnapshot(1)
 //@   atcall (*progressTracker).update@1 requires @progress-is-what-the-round-returned $1 == lastRevision && $2 == retryLowWatermark
 //@   loop 1 invariant @initialized-only-after-the-init-channel-fired tableInitialized ==> tableInitWatch == nil
